@@ -321,10 +321,28 @@ def check(ctx):
     creates = [n for n, c in K.nodes_calling(
         graph, lambda c: K.callee_text(c).endswith('zkutils.create') or
         K.is_meth(c, 'create'))]
-    for ret in [n for n in graph.nodes if n.kind == 'return']:
-        val = ret.ast.value
-        if not (isinstance(val, ast.Constant) and val.value is True):
-            continue
+    # the answer may travel through a local that only ever holds True /
+    # False (a helper spliced into the routine): the assignment of True is
+    # then the point where success is claimed
+    assigned = {}
+    for node in graph.nodes:
+        if node.kind == 'stmt' and isinstance(node.ast, ast.Assign) and \
+                len(node.ast.targets) == 1 and \
+                isinstance(node.ast.targets[0], ast.Name):
+            assigned.setdefault(node.ast.targets[0].id, []).append(node)
+    carriers = set(
+        name for name, nodes in assigned.items()
+        if all(isinstance(n.ast.value, ast.Constant) and
+               n.ast.value.value in (True, False) for n in nodes) and
+        any(r.kind == 'return' and isinstance(r.ast.value, ast.Name) and
+            r.ast.value.id == name for r in graph.nodes))
+    claims = [n for n in graph.nodes if n.kind == 'return' and
+              isinstance(n.ast.value, ast.Constant) and
+              n.ast.value.value is True]
+    for name in sorted(carriers):
+        claims.extend(n for n in assigned[name]
+                      if n.ast.value.value is True)
+    for ret in claims:
         ok = K.guarded_by(graph, ret, lambda e: (
             e.src in creates and e.kind != 'exc') or any(
                 _session_eq(a, True, sc) for a in nz.facts_of_edge(e)))
@@ -333,7 +351,9 @@ def check(ctx):
                'one its own session owns', construct='success only if ours')
     others = [n for n in graph.nodes if n.kind == 'return' and not (
         isinstance(n.ast.value, ast.Constant) and
-        n.ast.value.value in (True, False))]
+        n.ast.value.value in (True, False)) and not (
+            isinstance(n.ast.value, ast.Name) and
+            n.ast.value.id in carriers)]
     ctx.ob('C17.2', sc, others[0] if others else None, not others,
            '_safe_create answers with a plain True / False',
            construct='plain result')
